@@ -197,3 +197,39 @@ def run_ids(prog, rep):
                            'file id written by %s from util::createId()' % fn.name,
                            'file id written by %s (only createHeader and forceId may) or not from createId' % fn.name)
     return rule
+
+
+def run_id_forward(prog, rep):
+    """the id a creating constructor is given travels unchanged through the constructor chain down to EntityHDF5"""
+    from ..sem import term, unwrap, real_args, split_sig
+    rule = rep.rule('R-ID-FWD', 'creating constructors of the backend entity classes hand the id (and the name, type) they are given to the base / delegated constructor unchanged', floor=30)
+    n = 0
+    for f in sorted(prog.funcs.values(), key=lambda f: (f.file, f.line)):
+        if f.body is None or f.kind != 'ctor' or not (f.cls or '').startswith('nix::hdf5::'):
+            continue
+        own = {p['name']: ('v', p['lid'], p['name']) for p in f.params if p['name'] in ('id', 'name', 'type') and 'string' in p['type']}
+        if 'id' not in own:
+            continue
+        k = 0
+        for x in f.walk():
+            if x.k != 'ctorinit' or x.a.get('what') == 'member':
+                continue
+            cons = [c for c in x.c if c is not None and c.k == 'construct']
+            if not cons:
+                continue
+            tgt = prog.funcs.get((cons[0].callee or {}).get('usr'))
+            args = [a for a in real_args(cons[0]) if a is not None]
+            if tgt is None or not tgt.params:
+                continue
+            for j, p in enumerate(tgt.params):
+                if p['name'] not in own or j >= len(args) or 'string' not in p['type']:
+                    continue
+                n += 1
+                k += 1
+                t = term(unwrap(args[j]))
+                rule.check(t == own[p['name']], '%s%s|%s->%s|%d' % (f.q, f.sig[:50], p['name'], tgt.cls.split('::')[-1], k), rep.where(cons[0]), f.label(),
+                           '%s handed on unchanged' % p['name'],
+                           'the %s given to the constructor reaches %s as %s: the entity is created under another %s than the one the caller generated / asked for' % (p['name'], tgt.cls.split('::')[-1], args[j].src(50), p['name']))
+    if n < 30:
+        raise AnalysisBroken('R-ID-FWD: only %d forwarded constructor arguments found' % n)
+    return rule
